@@ -218,6 +218,9 @@ func runC18(c *Ctx) {
 	c.ruleAlias = nil
 	c.c18RunsDoNotOverlap()
 	c.c18PiecesAreTheBytesWritten()
+	c.rule("M14", "every one-line forwarder of package subprocess (Setup…, Execute…, Output…, New… variants) hands each of its parameters to the call it forwards to, exactly once: the messages, the environment and the user reach the command whichever variant is called", 15)
+	c.forwardersKeepTheirArguments("M14", []string{spPkg}, nil,
+		"called through that variant the subprocess is described with another argument in its place — the failure message replaced by the success message: a child that fails is reported with the text for success, and the failure text is never logged")
 	c.c18MonitoringOverBeforeTheNextRun()
 	c.c18StopRecheck()
 }
